@@ -1,5 +1,183 @@
 import Rivaas.Proto
-/- Driver for C08 (stub: not built yet) -/
-def main : IO UInt32 := do
-  IO.eprintln "driver for C08 is not built yet"
-  return 2
+import Rivaas.Spec.Obs
+/-
+Driver for C08. Case lines (DESIGN.md §2.9):
+
+  <id> R <facts> <prog> <patterns> => <log> <status> <size> <recd>
+      one request through a router with the counting recorder
+  <id> A <n> (<facts> <prog> <method>)^n <patterns> => <spansStarted> <spansEnded> <active> <n> (<span name> <span status> <metric route> <metric status> <client status> <client size> <metric size>)^n
+      a history of requests through an app with the real recorder (tracetest.SpanRecorder + ManualReader)
+
+  facts    = obs live useCompiled hasStatic <route?> <route?> tree treeCompiled <route?> <route?> versionEngine vcTree
+             <version> <route?> <route?> sunset allowed noRoute <detected> <path>
+  route?   = 0 | 1 <hid> <pattern>
+  prog     = E <status> <size> | Q | O <size> | T <status> <size> | B <status> <size> | X <size>
+  log      = <n> (S <live> | W | H <hid> <pattern> <version> | E <label> <wrapped>)^n
+  recd     = 0 | 1 <status> <size>
+-/
+namespace Rivaas.DriverC08
+open Rivaas.Proto Rivaas.Serve Rivaas.Obs
+
+def pRoute : P (Option Route) := opt (do let h ← nat; let p ← str; pure ⟨h, p⟩)
+
+def pFacts : P Facts := do
+  let obs ← bool; let live ← bool; let uc ← bool; let hs ← bool
+  let ls ← pRoute; let md ← pRoute
+  let tree ← bool; let tc ← bool
+  let ts ← pRoute; let tr ← pRoute
+  let ve ← bool; let vt ← bool; let ver ← str
+  let vc ← pRoute; let vr ← pRoute
+  let sunset ← bool; let allowed ← bool; let noRoute ← bool
+  let det ← str; let path ← str
+  pure { obs := obs, live := live, useCompiled := uc, hasStatic := hs, lookupStatic := ls, matchDynamic := md,
+         tree := tree, treeCompiled := tc, treeStatic := ts, treeRoute := tr, versionEngine := ve, vcTree := vt,
+         version := ver, vCache := vc, vRoute := vr, sunset := sunset, allowed := allowed, noRoute := noRoute,
+         detected := det, path := path }
+
+def pProg : P Prog := do
+  let k ← tok
+  if k == "E" then (do let s ← nat; let n ← nat; pure (Prog.explicit s n))
+  else if k == "Q" then pure Prog.silent
+  else if k == "O" then Prog.writeOnly <$> nat
+  else if k == "T" then (do let s ← nat; let n ← nat; pure (Prog.twice s n))
+  else if k == "B" then (do let s ← nat; let n ← nat; pure (Prog.abort s n))
+  else if k == "X" then Prog.panics <$> nat
+  else failure
+
+def pEv : P MEv := do
+  let k ← tok
+  if k == "S" then MEv.start <$> bool
+  else if k == "W" then pure MEv.wrap
+  else if k == "H" then (do let h ← nat; let p ← str; let v ← str; pure (MEv.handler h p v))
+  else if k == "E" then (do let l ← str; let w ← bool; pure (MEv.endCb l w))
+  else failure
+
+def pSeen : P Seen := do
+  let log ← list pEv
+  let st ← nat; let n ← nat
+  let r ← opt (do let a ← nat; let b ← nat; pure (a, b))
+  pure ⟨log, st, n, r⟩
+
+def encEv : MEv → String
+  | .start l => s!"S {if l then 1 else 0}"
+  | .wrap => "W"
+  | .handler h p v => s!"H {h} {encStr p} {encStr v}"
+  | .endCb l w => s!"E {encStr l} {if w then 1 else 0}"
+
+def encOut (o : Out) : String :=
+  s!"{o.log.length} " ++ " ".intercalate (o.log.map encEv) ++ s!" {o.status} {o.size}"
+
+/-- what the model expects the end callback's writer to report -/
+def modelRecd (f : Facts) (o : Out) : Option (Nat × Nat) := if f.obs && f.live then some (o.status, o.size) else none
+
+def stepR (id : String) (inp obs : List String) : String :=
+  if obs == ["P"] then verdict id false false "-" "a-panic-escaped-ServeHTTP" else
+  match runP (do let f ← pFacts; let p ← pProg; let pats ← list str; pure (f, p, pats)) inp, runP pSeen obs with
+  | some (f, p, pats), some seen =>
+    let m := serve f p
+    let mi := m.log == seen.log && m.status == seen.status && m.size == seen.size && modelRecd f m == seen.recd
+    let s := specOK f.obs f.live pats seen
+    verdict id mi s "-" (encOut m)
+  | _, _ => s!"{id} bad-case"
+
+/-! history through the real app recorder -/
+
+structure SpanObs where
+  name : Bytes          -- final span name
+  err : Nat             -- 0 when the span status is Ok, else the code of "HTTP <code>"
+  clientStatus : Nat    -- what the client of that request received
+  clientSize : Nat
+  deriving DecidableEq
+
+/-- one (http.route, http.status_code) series of http_requests_total with the sum of http_response_size_bytes -/
+structure Row where
+  route : Bytes
+  status : Nat
+  count : Nat
+  size : Nat
+  deriving DecidableEq
+
+structure HistObs where
+  started : Nat
+  ended : Nat
+  active : Int
+  spans : List SpanObs
+  rows : List Row
+
+def pHistObs : P HistObs := do
+  let st ← nat; let en ← nat; let ac ← int
+  let spans ← list (do
+    let nm ← str; let e ← nat; let cs ← nat; let cz ← nat
+    pure (⟨nm, e, cs, cz⟩ : SpanObs))
+  let rows ← list (do
+    let r ← str; let s ← nat; let c ← nat; let z ← nat
+    pure (⟨r, s, c, z⟩ : Row))
+  pure ⟨st, en, ac, spans, rows⟩
+
+/-- label the model expects the end callback to report for a request -/
+def modelLabel (o : Out) : Option Bytes :=
+  match o.log.getLast? with
+  | some (.endCb l _) => some l
+  | _ => none
+
+def errOf (status : Nat) : Nat := if status ≥ 400 then status else 0
+
+/-- metrics.Finish: an empty route is reported as `_unmatched` -/
+def routeAttr (l : Bytes) : Bytes := if l = [] then sUnmatched else l
+
+def addRow (rows : List Row) (route : Bytes) (status size : Nat) : List Row :=
+  match rows with
+  | [] => [⟨route, status, 1, size⟩]
+  | r :: rest =>
+    if r.route = route ∧ r.status = status then { r with count := r.count + 1, size := r.size + size } :: rest
+    else r :: addRow rest route status size
+
+def sameMultiset (a b : List Row) : Bool := a.length == b.length && a.all (fun r => b.contains r)
+
+def methods : List Bytes := ["GET", "POST", "PUT", "PATCH", "DELETE", "HEAD", "OPTIONS"].map String.toList
+
+def stepA (id : String) (inp obs : List String) : String :=
+  if obs == ["P"] then verdict id false false "-" "a-panic-escaped-ServeHTTP" else
+  match runP (do
+      let reqs ← list (do let f ← pFacts; let p ← pProg; let m ← str; pure (f, p, m))
+      let pats ← list str
+      pure (reqs, pats)) inp, runP pHistObs obs with
+  | some (reqs, pats), some h =>
+    let outs := reqs.map fun (f, p, m) => (f, m, serve f p)
+    let tele := outs.foldl (fun t (_, _, o) => t.run o.log) ({} : Tele)
+    let liveOuts := outs.filter fun (f, _, _) => f.obs && f.live
+    let expect : List SpanObs := liveOuts.filterMap fun (_, m, o) =>
+      (modelLabel o).map fun l => ⟨m ++ " ".toList ++ l, errOf o.status, o.status, o.size⟩
+    let expectRows : List Row := liveOuts.foldl (fun rows (_, _, o) =>
+      match modelLabel o with
+      | some l => addRow rows (routeAttr l) o.status o.size
+      | none => rows) []
+    let mi := tele.started == h.started && tele.ended == h.ended && tele.active == h.active &&
+      expect == h.spans && sameMultiset expectRows h.rows
+    -- oracle on what was observed
+    let allLabels := pats ++ sentinels
+    let s := h.started == h.ended && h.active == 0 && h.spans.length == liveOuts.length &&
+      h.spans.all (fun sp => sp.err == errOf sp.clientStatus &&
+        (methods.any fun m => allLabels.any fun l => sp.name == m ++ " ".toList ++ l)) &&
+      h.rows.all (fun r => labelOK pats r.route) &&
+      (h.rows.foldl (fun n r => n + r.count) 0) == liveOuts.length &&
+      (h.rows.foldl (fun n r => n + r.size) 0) == (h.spans.foldl (fun n sp => n + sp.clientSize) 0) &&
+      -- the status distribution of the metric equals the distribution of what clients received
+      (h.rows.map (·.status)).eraseDups.all (fun st =>
+        ((h.rows.filter (·.status == st)).foldl (fun n r => n + r.count) 0) ==
+          (h.spans.filter (·.clientStatus == st)).length)
+    verdict id mi s "-" s!"{tele.started} {tele.ended} {tele.active} {expect.length} {expectRows.length}"
+  | _, _ => s!"{id} bad-case"
+
+def step (line : String) : String :=
+  match splitCase line with
+  | none => "? bad-line"
+  | some (id, inp, obs) =>
+    match inp with
+    | "R" :: rest => stepR id rest obs
+    | "A" :: rest => stepA id rest obs
+    | _ => s!"{id} bad-case"
+
+end Rivaas.DriverC08
+
+def main : IO UInt32 := Rivaas.Proto.driverMain Rivaas.DriverC08.step
